@@ -867,6 +867,7 @@ package rueidis
 //@ func pipe.DoMultiCache #c09
 //@   option opaque-pkgs=github.com/redis/rueidis/internal/cmds
 //@   modifies *
+//@   assert [C09 an-exec-error-reply-is-never-handed-to-the-waiters-without-consulting-the-commands-own-reply] at Cancel#1: typeis(returned(Error, 1), *RedisError) ==> calls(Error, 2) >= 1
 //@   assert [C09 waiters-of-an-aborted-request-get-the-leaders-error] at Cancel#1: (typeis(returned(Error, 1), *RedisError) ==> (arg3 == ErrDoCacheAborted || arg3 == returned(Error, 2))) && (!typeis(returned(Error, 1), *RedisError) ==> arg3 == returned(Error, 1))
 //@   assert [C09 waiters-of-a-failed-static-ttl-request-get-its-transport-error] at Cancel#2: arg3 == resp.s[i].err
 
